@@ -217,6 +217,10 @@ impl Rebuildable for Declaration
 			{
 				let mut buffer = String::new();
 				write!(&mut buffer, "{}", indentation)?;
+				if flags.contains(DeclarationFlag::Public)
+				{
+					write!(&mut buffer, "pub ")?;
+				}
 				if flags.contains(DeclarationFlag::External)
 				{
 					write!(&mut buffer, "extern ")?;
@@ -341,7 +345,16 @@ impl Rebuildable for Declaration
 			Declaration::Import {
 				filename,
 				location: _,
-			} => Ok(format!("{}import \"{}\";\n", indentation, filename)),
+			} =>
+			{
+				// Escape the filename like any other string literal.
+				let escaped_bytes: Vec<u8> = filename
+					.bytes()
+					.flat_map(|b| std::ascii::escape_default(b))
+					.collect();
+				let value = String::from_utf8_lossy(&escaped_bytes).to_string();
+				Ok(format!("{}import \"{}\";\n", indentation, value))
+			}
 			Declaration::Poison(poison) => poison.rebuild(indentation),
 		}
 	}
